@@ -28,7 +28,7 @@ for d in $dirs; do
       ok=0
       for i in 1 2; do
         ./target/debug/verif-sim replay "$rp" > /tmp/matrix.replay 2>&1; rrc=$?
-        if [ $rrc -eq 1 ] && grep -q "class=$cls" /tmp/matrix.replay; then ok=$((ok+1)); fi
+        if [ $rrc -eq 1 ] && grep -q "class=$cls" /tmp/matrix.replay; then ok=$((ok+1)); else mkdir -p "$ROOT/target/replay_failures"; { echo "rc=$rrc cls=$cls file=$rp"; head -40 /tmp/matrix.replay; } > "$ROOT/target/replay_failures/$name.$i.txt"; fi
       done
       detail="$detail replay_reproduced=$ok/2"
       break
